@@ -213,6 +213,11 @@ func genClaims(r *vh.Rng) []int64 {
 			default:
 				count = genCount(r)
 			}
+			if r.Chance(1, 25) {
+				// the apiserver rejects count < 0; the cache does not re-check: model and code must still agree
+				// (the law's non-negativity clause is only asked when every count is >= 0)
+				count = -int64(r.Range(1, 9))
+			}
 			caps := []capSpec{}
 			if kind == 0 {
 				okG := !seen[class] || hasCaps[class]
